@@ -14,12 +14,21 @@ DEFAULT_DIRS = {'datadir': 'share', 'includedir': 'include', 'mandir': 'share/ma
 
 
 def perms(s: str) -> int:
-    """'rwxr-x---' -> 0o750 (plain rwx strings only)."""
+    """'rwxr-x---' -> 0o750; s/S in the user/group execute slot = setuid/setgid (+x for lower case), t/T = sticky."""
     assert len(s) == 9
     v = 0
     for i, ch in enumerate(s):
-        if ch != '-':
-            v |= 1 << (8 - i)
+        bit = 1 << (8 - i)
+        if ch in 'rwx':
+            v |= bit
+        elif ch in 'sS' and i in (2, 5):
+            v |= 0o4000 if i == 2 else 0o2000
+            if ch == 's':
+                v |= bit
+        elif ch in 'tT' and i == 8:
+            v |= 0o1000
+            if ch == 't':
+                v |= bit
     return v
 
 
@@ -103,7 +112,7 @@ def expected_tree(spec: T.Dict[str, T.Any], destdir: str, opts: T.Dict[str, T.An
             proj = SUB if rule.get('sub') else PROJ
             d = rule.get('dir') if rule.get('dir') is not None else f"{DEFAULT_DIRS['datadir']}/{proj}"
             for i, f in enumerate(rule['files']):
-                name = rule['rename'][i] if rule.get('rename') else os.path.basename(f['name'])
+                name = rule['rename'][i] if rule.get('rename') else (f['name'] if rule.get('preserve_path') else os.path.basename(f['name']))
                 dst = os.path.join(resolve(d), name)
                 t.add_parents(os.path.dirname(dst), dirmode, destdir)
                 t.add_file(dst, fmode(f.get('exec', False), rule.get('mode')), sha(content_of(f['name'])))
@@ -119,7 +128,7 @@ def expected_tree(spec: T.Dict[str, T.Any], destdir: str, opts: T.Dict[str, T.An
                 continue
             d = DEFAULT_DIRS['includedir'] + ('/' + rule['subdir'] if rule.get('subdir') else '')
             for f in rule['files']:
-                dst = os.path.join(resolve(d), os.path.basename(f['name']))
+                dst = os.path.join(resolve(d), f['name'] if rule.get('preserve_path') else os.path.basename(f['name']))
                 t.add_parents(os.path.dirname(dst), dirmode, destdir)
                 t.add_file(dst, fmode(f.get('exec', False), None), sha(content_of(f['name'])))
         elif k == 'man':
@@ -127,7 +136,8 @@ def expected_tree(spec: T.Dict[str, T.Any], destdir: str, opts: T.Dict[str, T.An
                 continue
             for f in rule['files']:
                 sect = f['name'].rsplit('.', 1)[1]
-                dst = os.path.join(resolve(f"{DEFAULT_DIRS['mandir']}/man{sect}"), os.path.basename(f['name']))
+                loc = (rule['locale'] + '/') if rule.get('locale') else ''
+                dst = os.path.join(resolve(f"{DEFAULT_DIRS['mandir']}/{loc}man{sect}"), os.path.basename(f['name']))
                 t.add_parents(os.path.dirname(dst), dirmode, destdir)
                 t.add_file(dst, fmode(False, None), sha(content_of(f['name'])))
         elif k == 'emptydir':
